@@ -69,7 +69,11 @@ EXPLANATION = ("Theorems in coq/Props/C18.v over all call histories; corresponde
                "status call the StreamToQueue chain is also popped by a chain of consuming routers and the route "
                "code that arrives is compared with the original.")
 
-SEGS = ["0", "1", "ab", "xyz", "q7", "long-seg", "Z"]
+SEGS = ["0", "1", "ab", "xyz", "q7", "long-seg", "Z", ""]
+# segment 7 is the EMPTY string: used only as the routing code of the outermost StreamToQueue and as a rule's
+# route_prefix (StreamToQueue('') turns None into '' and 'x' into '/x'; a rule for '' pops exactly that), never
+# inside an event's own route code (the quantifier: non-empty segments) and never under a further queue
+SEG_EMPTY = 7
 SEGNUM = {s: k for k, s in enumerate(SEGS)}
 STATUSES = ["exists", "inprogress", "xfail", "uxsuccess", "success", "fail", "skip", "unknown"]
 BASE = datetime.datetime(2020, 1, 1, tzinfo=datetime.timezone.utc)
@@ -220,23 +224,53 @@ def drive(case):
     else:
         router = StreamResultRouter(fbk, do_start_stop_run=case["fb_ss"])
     steps, rounds = [], []
+
+    def add(idx, op):
+        if op[0] == "P":
+            args = {"route_prefix": SEGS[op[2]]}
+            if op[3] or idx % 2:
+                args["consume_route"] = op[3]
+            if op[4] or idx % 3 == 0:
+                args["do_start_stop_run"] = op[4]
+            router.add_rule(sinks[op[1]], "route_code_prefix", **args)
+        else:
+            args = {"test_id": None if op[2] is None else "test%d" % op[2]}
+            if op[3] or idx % 2:
+                args["do_start_stop_run"] = op[3]
+            router.add_rule(sinks[op[1]], "test_id", **args)
+    # re-entrant registration: [s_index, sink, n] - the n add_rule calls just before the startTestRun at s_index are
+    # made by `sink` from inside its own startTestRun, i.e. while the router is still handing startTestRun round.
+    # The model has them as ordinary calls just before Start (the router is not in a run yet, so nothing is started
+    # at once, and the loop over the live _sinks list reaches the new sinks): observed in that shape.
+    reent = {r[0]: r for r in case.get("reent", [])}
+    deferred = set(i for r in reent.values() for i in range(r[0] - r[2], r[0]))
     for idx, op in enumerate(case["ops"]):
         before = [len(s._events) for s in sinks]
         raised = False
         k = op[0]
+        if idx in deferred:
+            steps.append([False, [[] for _ in sinks]])
+            continue
         try:
-            if k == "P":
-                args = {"route_prefix": SEGS[op[2]]}
-                if op[3] or idx % 2:
-                    args["consume_route"] = op[3]
-                if op[4] or idx % 3 == 0:
-                    args["do_start_stop_run"] = op[4]
-                router.add_rule(sinks[op[1]], "route_code_prefix", **args)
-            elif k == "I":
-                args = {"test_id": None if op[2] is None else "test%d" % op[2]}
-                if op[3] or idx % 2:
-                    args["do_start_stop_run"] = op[3]
-                router.add_rule(sinks[op[1]], "test_id", **args)
+            if k in ("P", "I"):
+                add(idx, op)
+            elif k == "S" and idx in reent:
+                _, who, n = reent[idx]
+                rec = sinks[who]
+                plain = rec.startTestRun
+                fired = []
+
+                def hooked(plain=plain, idx=idx, n=n, fired=fired):
+                    plain()
+                    if not fired:
+                        fired.append(1)
+                        for j in range(idx - n, idx):
+                            add(j, case["ops"][j])
+                rec.startTestRun = hooked
+                try:
+                    router.startTestRun()
+                finally:
+                    del rec.startTestRun
             elif k == "R":
                 policy, pargs = REJECTS[op[2]]
                 args = dict(pargs)
@@ -311,7 +345,7 @@ def perturb(case, o):
 # ---------------- generation ----------------
 ROUTES = [None, [0], [2], [1], [0, 1], [2, 0], [1, 0], [0, 2, 3], [2, 2, 1], [3, 3], [2, 3, 1, 4], [0, 0, 0, 0],
           [5, 0], [0, 5, 6, 2]]
-VIAS = [[], [], [], [0], [2], [1], [0, 2], [2, 0, 1], [5], [0, 0]]
+VIAS = [[], [], [], [0], [2], [1], [0, 2], [2, 0, 1], [5], [0, 0], [SEG_EMPTY], [0, SEG_EMPTY]]
 PREFIX_KEYS = [0, 2]
 ID_KEYS = [0, 1, None]
 
@@ -502,6 +536,13 @@ def fixed_cases():
         {"n": 4, "fb": 0, "fb_ss": True, "ops": [["I", 1, None, True], ["I", 2, None, True], ["I", 2, None, False],
                                                  ["P", 0, 2, True, False], ["S"], ["E", [], ev(None, None)],
                                                  ["E", [], ev([2, 1], 0)], ["T"]]},
+        # the empty routing code '': pushed by StreamToQueue('') onto None and onto codes of 1..3 segments, popped by a
+        # consuming rule for '', kept by a non-consuming one, and with no rule for it (fallback gets '/x' unchanged)
+        {"n": 3, "fb": 0, "fb_ss": False, "ops": [["E", [SEG_EMPTY], ev(None, 0)], ["E", [SEG_EMPTY], ev([3], 0)],
+                                                  ["P", 1, SEG_EMPTY, True, False], ["E", [SEG_EMPTY], ev(None, 0)],
+                                                  ["E", [SEG_EMPTY], ev([3], 0)], ["E", [0, SEG_EMPTY], ev([2, 1], 1)],
+                                                  ["E", [], ev([3], 0)], ["P", 2, SEG_EMPTY, False, False],
+                                                  ["E", [SEG_EMPTY], ev([0, 2, 3], None)], ["E", [SEG_EMPTY], ev(None, None)]]},
         # empty history
         {"n": 1, "fb": 0, "fb_ss": True, "ops": []},
     ]
@@ -524,8 +565,67 @@ def inside_wf(case):
     return dict(case, ops=ops)
 
 
+def registered_before(case, i):
+    reg = []
+    if case["fb"] is not None and case["fb_ss"]:
+        reg.append(case["fb"])
+    for op in case["ops"][:i]:
+        if op[0] in ("P", "I") and op[-1] and op[1] not in reg:
+            reg.append(op[1])
+    return reg
+
+
+def reentrant_variant(case, rng):
+    """a copy of the history in which one startTestRun that opens a run is preceded by one or two new add_rule calls
+    that a sink already registered for start/stop makes from inside its own startTestRun (None when the history
+    has no such startTestRun)"""
+    ops = case["ops"]
+    in_run, spots = False, []
+    for i, op in enumerate(ops):
+        if op[0] == "S":
+            if not in_run and registered_before(case, i):
+                spots.append(i)
+            in_run = True
+        elif op[0] == "T":
+            in_run = False
+    if not spots:
+        return None
+    i = rng.choice(spots)
+    used = set(op[1] for op in ops if op[0] in "PIR") | {0}
+    free = [k for k in range(1, case["n"]) if k not in used]
+    opts = rule_options()
+    adds = []
+    for _ in range(rng.choice([1, 1, 2])):
+        rule = rng.choice(opts)
+        rule = rule[:-1] + (rng.random() < 0.75,)                    # mostly registered for start/stop
+        sink = free.pop() if free and rng.random() < 0.8 else rng.randrange(case["n"])
+        adds.append(mk_rule(rule, sink))
+    c = inside_wf(dict(case, ops=ops[:i] + adds + ops[i:]))
+    who = rng.choice(registered_before(c, i))
+    c["reent"] = [[i + len(adds), who, len(adds)]]
+    return c
+
+
 def generate(rng, tier):
-    return [inside_wf(c) for c in _generate(rng, tier)]
+    cases = [inside_wf(c) for c in _generate(rng, tier)]
+    extra = []
+    for c in rng.sample(cases, min(len(cases), 500 if tier == "quick" else 5000)):
+        v = reentrant_variant(c, rng)
+        if v is not None:
+            extra.append(v)
+    return cases + REENTRANT_FIXED + extra
+
+
+# a fallback registered for start/stop installs the per-worker rules when it is started (opening the first and the
+# second run); a rule's sink registers a further sink; re-entrant rules without do_start_stop_run stay unstarted
+REENTRANT_FIXED = [
+    {"n": 3, "fb": 0, "fb_ss": True, "reent": [[2, 0, 2]],
+     "ops": [["P", 1, 0, True, True], ["I", 2, 0, True], ["S"], ["E", [], ev([0, 1], 1)], ["E", [], ev(None, 0)], ["T"],
+             ["S"], ["T"]]},
+    {"n": 4, "fb": 0, "fb_ss": True, "reent": [[5, 1, 2]],
+     "ops": [["P", 1, 0, True, True], ["S"], ["T"], ["P", 2, 2, False, True], ["I", 3, 1, False], ["S"],
+             ["E", [], ev([2, 1], 1)], ["E", [], ev(None, 1)], ["T"]]},
+]
 
 
 def _generate(rng, tier):
@@ -645,6 +745,10 @@ def nontrivial(case):
 
 
 def shrink(case):
+    if case.get("reent"):
+        # first try the same calls made from outside; the positions of a re-entrant group are not re-numbered
+        yield {k: v for k, v in case.items() if k != "reent"}
+        return
     ops = case["ops"]
     status = [i for i, op in enumerate(ops) if op[0] == "E"]
     if len(status) > 2:                 # drop all status calls but one / half of them at once
